@@ -410,6 +410,34 @@ func (c *XAConn) Close() error {
 	return nil
 }
 
+// IsValid tells database/sql not to put a held connection back into its pool: the session carries a
+// prepared branch and belongs to the second phase until that is over
+func (c *XAConn) IsValid() bool {
+	c.keptMu.Lock()
+	kept := c.isConnKept
+	c.keptMu.Unlock()
+	if kept && c.ShouldBeHeld() {
+		return false
+	}
+	if v, ok := c.Conn.targetConn.(driver.Validator); ok {
+		return v.IsValid()
+	}
+	return true
+}
+
+// closeAfterPhaseTwo closes the physical connection once no branch waits on it any more
+func (c *XAConn) closeAfterPhaseTwo() {
+	c.keptMu.Lock()
+	kept := c.isConnKept
+	c.keptMu.Unlock()
+	if kept {
+		return
+	}
+	if err := c.Conn.Close(); err != nil {
+		log.Errorf("close xa connection after phase two: %v", err)
+	}
+}
+
 func (c *XAConn) CloseForce() error {
 	if err := c.Conn.Close(); err != nil {
 		return err
